@@ -133,12 +133,19 @@ func (e *Engine) registerIntrinsics() {
 		if c.IsFalse() {
 			panic(pathEnd{"ASSUME-FALSE", ""})
 		}
-		r := w.sol.Check(w.st.pc, c)
+		if w.st.model != nil && w.st.evalTrue(c) {
+			w.st.addPC(c)
+			return nil, ctlNext
+		}
+		r, m := w.sol.CheckModel(w.st.pc, c, w.allVars())
 		if r == "unsat" {
 			panic(pathEnd{"ASSUME-FALSE", ""})
 		}
 		if r == "unknown" {
 			w.st.approx = true
+			w.st.model = nil
+		} else {
+			w.st.model = m
 		}
 		w.st.addPC(c)
 		return nil, ctlNext
@@ -214,6 +221,19 @@ func (e *Engine) registerIntrinsics() {
 		v := w.concretize(t, true, int64(lo), int64(hi), "vfConcrete")
 		return BVi(v, 64), ctlNext
 	}
+	in["vf:vfAnd"] = func(w *Worker, g *G, fr *Frame, fn *ssa.Function, a []Value) (Value, ctl) {
+		return And(a[0].(*Term), a[1].(*Term)), ctlNext
+	}
+	in["vf:vfOr"] = func(w *Worker, g *G, fr *Frame, fn *ssa.Function, a []Value) (Value, ctl) {
+		return Or(a[0].(*Term), a[1].(*Term)), ctlNext
+	}
+	in["vf:vfImplies"] = func(w *Worker, g *G, fr *Frame, fn *ssa.Function, a []Value) (Value, ctl) {
+		return Implies(a[0].(*Term), a[1].(*Term)), ctlNext
+	}
+	in["vf:vfIteInt"] = func(w *Worker, g *G, fr *Frame, fn *ssa.Function, a []Value) (Value, ctl) {
+		return Ite(a[0].(*Term), a[1].(*Term), a[2].(*Term)), ctlNext
+	}
+	in["vf:vfIteU64"] = in["vf:vfIteInt"]
 	in["vf:vfTier"] = func(w *Worker, g *G, fr *Frame, fn *ssa.Function, a []Value) (Value, ctl) {
 		return BVi(int64(w.hr.Cfg.TierInt), 64), ctlNext
 	}
@@ -254,6 +274,8 @@ func (e *Engine) registerIntrinsics() {
 	registerBigIntrinsics(in)
 	registerReflectIntrinsics(in)
 	registerHashIntrinsics(in)
+	registerBitsIntrinsics(in)
+	registerU256Intrinsics(in)
 }
 
 // reach visits every heap object reachable from v.
@@ -362,35 +384,48 @@ func (w *Worker) assertion(site string, c *Term) {
 		return
 	}
 	nc := Not(c)
-	// known-finding signatures: first look for a violation outside every signature
-	var sigs []*Term
-	for _, k := range w.st.known {
-		sigs = append(sigs, Not(k.Cond))
-	}
 	t0 := nowMs()
-	q := And(append([]*Term{nc}, sigs...)...)
-	r, m := w.sol.CheckModel(w.st.pc, q, w.inputVars())
 	ob := Obligation{Site: site, PCLen: len(w.st.pc)}
+	vars := w.allVars()
+	r, m := w.sol.CheckModel(w.st.pc, nc, vars)
 	switch r {
 	case "unsat":
 		ob.Verdict = "discharged"
 	case "sat":
-		ob.Verdict = "violated"
-		v := &Violation{Site: site, Kind: "assert", Inputs: w.modelInputs(m), Trace: append([]string(nil), w.st.trace...)}
-		hr.addViolation(v)
+		// classify against known-finding signatures: a violation outside every signature is new
+		if len(w.st.known) == 0 {
+			ob.Verdict = "violated"
+			hr.addViolation(&Violation{Site: site, Kind: "assert", Inputs: w.modelInputs(m), Trace: append([]string(nil), w.st.trace...)})
+		} else {
+			var sigs []*Term
+			for _, k := range w.st.known {
+				sigs = append(sigs, Not(k.Cond))
+			}
+			r1, m1 := w.sol.CheckModel(w.st.pc, And(append([]*Term{nc}, sigs...)...), vars)
+			switch r1 {
+			case "sat":
+				ob.Verdict = "violated"
+				hr.addViolation(&Violation{Site: site, Kind: "assert", Inputs: w.modelInputs(m1), Trace: append([]string(nil), w.st.trace...)})
+			case "unsat":
+				ob.Verdict = "discharged-modulo-known"
+			default:
+				ob.Verdict = "unknown"
+				hr.mu.Lock()
+				hr.Unknowns = append(hr.Unknowns, site+": solver unknown ("+w.sol.lastErr+")")
+				hr.mu.Unlock()
+			}
+			for _, k := range w.st.known {
+				r2, m2 := w.sol.CheckModel(w.st.pc, And(nc, k.Cond), vars)
+				if r2 == "sat" {
+					hr.addViolation(&Violation{Site: site, Kind: "assert", Inputs: w.modelInputs(m2), Known: k.Sig, Trace: append([]string(nil), w.st.trace...)})
+				}
+			}
+		}
 	default:
 		ob.Verdict = "unknown"
 		hr.mu.Lock()
 		hr.Unknowns = append(hr.Unknowns, site+": solver unknown ("+w.sol.lastErr+")")
 		hr.mu.Unlock()
-	}
-	// known signatures: report each that is hit
-	for _, k := range w.st.known {
-		r2, m2 := w.sol.CheckModel(w.st.pc, And(nc, k.Cond), w.inputVars())
-		if r2 == "sat" {
-			v := &Violation{Site: site, Kind: "assert", Inputs: w.modelInputs(m2), Known: k.Sig, Trace: append([]string(nil), w.st.trace...)}
-			hr.addViolation(v)
-		}
 	}
 	ob.Ms = nowMs() - t0
 	hr.mu.Lock()
@@ -400,9 +435,16 @@ func (w *Worker) assertion(site string, c *Term) {
 	if c.IsFalse() {
 		panic(pathEnd{"ASSERT-FALSE", site})
 	}
-	r3 := w.sol.Check(w.st.pc, c)
-	if r3 == "unsat" {
-		panic(pathEnd{"ASSERT-FALSE", site})
+	if r != "unsat" && !(w.st.model != nil && w.st.evalTrue(c)) {
+		r3, m3 := w.sol.CheckModel(w.st.pc, c, vars)
+		if r3 == "unsat" {
+			panic(pathEnd{"ASSERT-FALSE", site})
+		}
+		if r3 == "sat" {
+			w.st.model = m3
+		} else {
+			w.st.model = nil
+		}
 	}
 	w.st.addPC(c)
 }
